@@ -433,7 +433,13 @@ func (p *Path) specIntrinsic(n string, args []Value) (Value, bool) {
 		return mkEq(expr, mkConcat(mkStr("float32("), fmtFloatSharpV(f), mkStr(")"))), true
 	case "specComplex128ConstIs":
 		expr, f := args[0].(*Term), args[1].(FloatVal)
-		return mkEq(expr, fmtFloatSharpV(f)), true
+		std := mkEq(expr, fmtFloatSharpV(f))
+		if f.isC {
+			return std, true
+		}
+		// also accepted: a pure imaginary literal "(<imag>i)" when the real part is +0
+		pureImag := mkAnd(mkEq(f.bits, mkInt(0)), mkEq(expr, mkConcat(mkStr("("), mkUF("fmtf64", SStr, f.bits2), mkStr("i)"))))
+		return mkOr(std, pureImag), true
 	case "specComplex64ConstIs":
 		expr, f := args[0].(*Term), args[1].(FloatVal)
 		return mkEq(expr, mkConcat(mkStr("complex64"), fmtFloatSharpV(f))), true
